@@ -3,6 +3,7 @@ GUARD-ATOMS: the copy into the reassembly buffer and the hand-off are control de
 offset, total size, bounds incl. overflow, bytes available, magic, source exclusion); a new Message is started only at offset 0;
 HEADER-ORDER: writer and reader agree on the six header words.  Plus the C02 taint obligations for the two tunnel files (run by C02)."""
 import re
+from msa import guards as G
 from msa import pair as P
 from msa import ast as A
 from msa import cfg as C
@@ -27,17 +28,16 @@ def is_member_of(n, base_d, name):
 
 
 def guards(f, node):
-    return [(f.nodes[c], t) for (c, t) in C.guards_of_block(f, P.pos_of(f, node)[0])]
+    """facts that dominate the node: (atom, truth) with `&&`/`||` split, negations and `== false` stripped, bool locals expanded"""
+    return G.atoms_at(f, node)
 
 
 def eq_guard(gs, pred_a, pred_b):
-    """a dominating `a == b` (true) or `a != b` (false) with the operands satisfying the predicates in either order"""
+    """a dominating `a == b` (however it is spelled) with the operands satisfying the predicates in either order"""
     for (cn, t) in gs:
-        n = A.strip_casts(cn)
-        if n['k'] == 'BinaryOperator' and ((n.get('op') == '==' and t) or (n.get('op') == '!=' and not t)):
-            l, r = n['ch']
-            if (pred_a(l) and pred_b(r)) or (pred_a(r) and pred_b(l)):
-                return n
+        for (l, op, r) in A.rel_forms(cn, t):
+            if op == '==' and pred_a(l) and pred_b(r):
+                return A.strip_casts(cn)
     return None
 
 
@@ -90,8 +90,8 @@ def run(res, tier):
     mid = None
     for (cn, t) in gs:
         n = A.strip_casts(cn)
-        if n['k'] == 'BinaryOperator' and n.get('op') == '==' and t:
-            for (a, b) in ((n['ch'][0], n['ch'][1]), (n['ch'][1], n['ch'][0])):
+        for (a, op, b) in A.rel_forms(cn, t):
+            if op == '==':
                 if is_member_of(b, rsd, '_messageID') and 'd' in A.strip_casts(a) and is_wire(A.strip_casts(a)['d']):
                     mid = (n, A.strip_casts(a)['d'])
     ob('message-id: wire message id == state->_messageID', mid, mid[0].text() if mid else None, 'fragments of different Messages can be combined into one (message id not compared with the receive state)')
@@ -99,8 +99,8 @@ def run(res, tier):
     rssz = None
     for (cn, t) in gs:
         n = A.strip_casts(cn)
-        if n['k'] == 'BinaryOperator' and n.get('op') == '==' and t:
-            for (a, b) in ((n['ch'][0], n['ch'][1]), (n['ch'][1], n['ch'][0])):
+        for (a, op, b) in A.rel_forms(cn, t):
+            if op == '==':
                 a2, b2 = A.strip_casts(a), A.strip_casts(b)
                 if 'd' in a2 and is_wire(a2['d']) and 'd' in b2:
                     e = local_def(f, b2['d'])
@@ -116,18 +116,17 @@ def run(res, tier):
             ds = set(A.strip_casts(a).get('d') for a in n.args())
             if ds == set([od, cd]):
                 ovf = n
-        if n['k'] == 'BinaryOperator' and n.get('op') == '<=' and pol:
-            l, r = A.strip_casts(n['ch'][0]), A.strip_casts(n['ch'][1])
-            if l['k'] == 'BinaryOperator' and l.get('op') == '+' and set(A.strip_casts(x).get('d') for x in l['ch']) == set([od, cd]) and rssz and r.get('d') == rssz[1]:
-                sumle = n
+        for (l, op, r) in A.rel_forms(cn, t):
+            if op == '<=' and l['k'] == 'BinaryOperator' and l.get('op') == '+' and set(A.strip_casts(x).get('d') for x in l['ch']) == set([od, cd]) and rssz and r.get('d') == rssz[1]:
+                sumle = A.strip_casts(cn)
     ob('no-overflow: WillUnsignedAddOverflow(offset, chunk) == false', ovf, ovf.text() if ovf else None, 'offset+chunkSize can wrap around before it is compared with the buffer size')
     ob('in-bounds: offset + chunk <= buffer size', sumle, sumle.text() if sumle else None, 'the copy can extend past the end of the reassembly buffer')
     av = None
     for (cn, t) in gs:
         n = A.strip_casts(cn)
-        if n['k'] == 'BinaryOperator' and n.get('op') in ('>=', '<=') and t:
-            l, r = n['ch']
-            big, small = (l, r) if n['op'] == '>=' else (r, l)
+        for (big, op, small) in A.rel_forms(cn, t):
+            if op != '>=':
+                continue
             if A.strip_casts(small).get('d') == cd and any((x.get('q') or '').endswith('::GetNumBytesAvailable') and A.root_loc(x.receiver()) == reader for x in big.walk() if x['k'] == 'CXXMemberCallExpr'):
                 av = n
     ob('available: chunk size <= bytes left in the packet', av, av.text() if av else None, 'bytes beyond the received packet are copied into the Message')
@@ -140,16 +139,12 @@ def run(res, tier):
     for asg in paths:
         good = False
         for (cid, truth) in asg.items():
-            n = A.strip_casts(f.nodes[cid])
-            if n['k'] == 'BinaryOperator' and n.get('op') in ('==', '!='):
-                l, r = A.strip_casts(n['ch'][0]), A.strip_casts(n['ch'][1])
-                sx = [x for x in (l, r) if x.get('n') == '_sexID' and x['k'] == 'MemberExpr']
-                if sx:
-                    o = r if sx[0] is l else l
-                    if o.get('v') == 0 and n['op'] == '==' and truth:
-                        good = True
-                    if 'd' in o and is_wire(o['d']) and ((n['op'] == '!=') == truth):
-                        good = True
+            z = A.zero_test(f.nodes[cid], truth)
+            if z is not None and z[1] and z[0]['k'] == 'MemberExpr' and z[0].get('n') == '_sexID':
+                good = True
+            for (l, op, o) in A.rel_forms(f.nodes[cid], truth):
+                if op == '!=' and l['k'] == 'MemberExpr' and l.get('n') == '_sexID' and 'd' in o and is_wire(o['d']):
+                    good = True
         sx_ok = sx_ok and good
     ob('source-exclusion: (_sexID == 0) || (_sexID != wire id) on every path to the copy', sx_ok, '%d paths' % len(paths), 'the gateway accepts its own packets (source-exclusion id not tested on some path)')
     # state keyed by source address
@@ -390,13 +385,12 @@ def mini_rule(res, fx):
         sz = A.strip_casts(h.args()[2])
         g = False
         for (cn, t) in guards(f, h):
-            n = A.strip_casts(cn)
-            if n['k'] == 'BinaryOperator' and n.get('op') == '<=' and t and P_canon(n['ch'][0]) == P_canon(sz):
-                b = A.strip_casts(n['ch'][1])
-                e = local_def(f, b['d']) if 'd' in b else b
-                if e is not None and any((x.get('q') or '').endswith('::GetNumBytesAvailable') for x in e.walk() if x.is_call()):
-                    g = True
-                    how = n.text()
+            for (l, op, b) in A.rel_forms(cn, t):
+                if op == '<=' and P_canon(l) == P_canon(sz):
+                    e = local_def(f, b['d']) if 'd' in b else b
+                    if e is not None and any((x.get('q') or '').endswith('::GetNumBytesAvailable') for x in e.walk() if x.is_call()):
+                        g = True
+                        how = A.strip_casts(cn).text()
         ok = ok and g
     res.ob('MINI', f.where(ho[0]), 'mini tunnel: chunk size <= bytes available dominates the hand-off', ok, how=how, function=f.q, key='MINI|%s|bound' % f.q,
            message='the mini tunnel hands the receiver a chunk whose declared size exceeds the bytes left in the packet')
